@@ -916,6 +916,21 @@ func (h *vhandler) OnClose(c Conn, err error) Action {
 	return None
 }
 
-func (h *vhandler) onDatagram(vc *vconn, c Conn) Action { return None }
+// onDatagram: a connected UDP socket of a client engine; every datagram is one OnTraffic, consumed whole.
+func (h *vhandler) onDatagram(vc *vconn, c Conn) Action {
+	sp := vc.spec
+	ra, la := "<nil>", "<nil>"
+	if a := c.RemoteAddr(); a != nil {
+		ra = a.String()
+	}
+	if a := c.LocalAddr(); a != nil {
+		la = a.String()
+	}
+	h.rec.emit("Traffic", "c", sp.id, "g", vsup.Goid(), "ib", c.InboundBuffered(), "ob", c.OutboundBuffered(), "raddr", ra, "laddr", la)
+	b, _ := c.Next(-1)
+	atomic.AddInt64(&sp.delivered, int64(len(b)))
+	h.rec.emit("TrafficEnd", "c", sp.id, "h", vc.h, "action", int(None), "ib", c.InboundBuffered(), "ob", c.OutboundBuffered())
+	return None
+}
 
 var _ = context.Background
